@@ -19,6 +19,7 @@ from .. import core, qtypes
 from .c16 import conv_case
 
 INTERM = "quantized_bits(8, 0, 1)"     # config_public default_interm_quantizer after cfg.update
+PO2_MAX_VALUES = [1.5, 3.0, 5.0, 6.0]  # non-power-of-two po2 max_value: frac(log2) >= 1/2 (1.5, 3, 6) and < 1/2 (5)
 
 
 # --------------------------------------------------------------------------- quantizer specs
@@ -66,14 +67,21 @@ def weight_specs(rng, want):
     return qb(int(rng.choice([2, 3, 4])), int(rng.choice([0, 0, 1])), symmetric=int(rng.integers(0, 2)))
   if want == "fixed_mostneg":
     return qb(int(rng.choice([2, 3])), 0, symmetric=0)
+  if want == "fixed40":
+    return qb(4, 0, symmetric=0)
   if want == "ternary":
     return ("ternary", dict(alpha=1))
   if want == "binary":
     return ("binary", dict(alpha=1))
   if want == "po2":
     return ("quantized_po2", dict(bits=int(rng.choice([3, 4]))))
-  if want == "auto_po2":
+  if want in ("auto_po2", "auto_po2_small", "auto_po2_large"):
+    # _small / _large: every per-channel po2 scale far below / far above 1 (see raw_weights)
     return qb(int(rng.choice([3, 4])), 0, symmetric=1, alpha=None)
+  if want == "po2_mv":
+    # max_value that is not a power of two: log2 with fractional part below (5) and above (1.5, 3, 6) one half —
+    # the real quantizer ROUNDS log2(max_value), qtools' get_exp takes the ceiling
+    return ("quantized_po2", dict(bits=int(rng.choice([3, 4])), max_value=float(rng.choice(PO2_MAX_VALUES))))
   if want == "ternary_auto":
     return ("ternary", dict())
   if want == "binary_auto":
@@ -101,8 +109,18 @@ def act_specs(rng, want):
     return ("quantized_po2", dict(bits=3))
   if want == "po2_mv1":
     return ("quantized_po2", dict(bits=3, max_value=1))
+  if want == "po2_mv":
+    return ("quantized_po2", dict(bits=int(rng.choice([3, 4])), max_value=float(rng.choice(PO2_MAX_VALUES))))
+  if want == "relu_po2_mv":
+    return ("quantized_relu_po2", dict(bits=int(rng.choice([3, 4])), max_value=float(rng.choice(PO2_MAX_VALUES))))
   if want == "tanh":
     return ("quantized_tanh", dict(bits=int(rng.choice([3, 4]))))
+  if want == "ulaw":
+    return ("quantized_ulaw", dict(bits=int(rng.choice([3, 4])), integer=int(rng.choice([0, 1]))))
+  if want == "bernoulli":
+    return ("bernoulli", dict(alpha=1))
+  if want == "stochastic_binary":
+    return ("stochastic_binary", dict(alpha=1))
   raise ValueError(want)
 
 
@@ -111,6 +129,16 @@ def bias_specs(rng, want):
     return None
   if want == "fixed":
     return qb(int(rng.choice([3, 4])), int(rng.choice([0, 1])), symmetric=int(rng.integers(0, 2)), alpha=None)
+  if want == "fixed40":
+    return qb(4, 0, symmetric=0, alpha=None)
+  if want == "wide_int":
+    # more integer bits than a kernel accumulator scaled down by a small po2 scale
+    b, i = [(8, 5), (7, 4), (6, 3)][int(rng.integers(0, 3))]
+    return qb(b, i, symmetric=int(rng.integers(0, 2)), alpha=None)
+  if want == "wide_frac":
+    # more fraction bits than a kernel accumulator scaled up by a large po2 scale
+    b, i = [(8, 1), (7, 0), (6, 0)][int(rng.integers(0, 3))]
+    return qb(b, i, symmetric=int(rng.integers(0, 2)), alpha=None)
   if want == "po2":
     return ("quantized_po2", dict(bits=3))
   raise ValueError(want)
@@ -142,7 +170,8 @@ def gen_specs(rng, tier):
   for n in (1, 2, 3, 4):
     specs.append(dict(stream="mostneg", family="dense", pre=None, n_in=n, src=("s", 3, 0),
                       layers=[dict(w="fixed_mostneg", b="none", act=None, act_mode=None, units=1, raw="allmin")]))
-  # (c) known-finding streams: default-alpha ternary/binary kernels, tanh, po2 max_value<=1, Flatten after tanh
+  # (c) known-finding streams (default-alpha ternary/binary kernels, po2 max_value<=1) and regression streams
+  #     of repaired findings (tanh int_bits, Flatten after tanh / ulaw / bernoulli / stochastic_binary)
   for wk in ("ternary_auto", "binary_auto"):
     specs.append(dict(stream="unit_auto", family="dense", pre=None,
                       layers=[dict(w=wk, b="none", act=None, act_mode=None)]))
@@ -150,6 +179,12 @@ def gen_specs(rng, tier):
                     layers=[dict(w="fixed", b="fixed", act=None, act_mode=None)]))
   specs.append(dict(stream="tanh_flatten", family="conv2d", pre="tanh", flatten_first=True,
                     layers=[dict(w="fixed", b="none", act=None, act_mode=None, kind="dense")]))
+  # the other qtools classes whose record is re-made on an edge behind a pass-through layer
+  # (quantized_ulaw emits companded, non-uniform levels by design — its qtools record only counts them — so that
+  #  model is compared on TYPES only; its values are outside C18_tensor_fits, see notes/C18.md)
+  for pre in ("ulaw", "bernoulli", "stochastic_binary"):
+    specs.append(dict(stream="remake_" + pre, family="conv2d", pre=pre, flatten_first=True, types_only=pre == "ulaw",
+                      layers=[dict(w="fixed", b="none", act=None, act_mode=None, kind="dense")]))
   specs.append(dict(stream="po2_mv1", family="dense", pre="po2_mv1",
                     layers=[dict(w="fixed", b="none", act=None, act_mode=None)]))
   # auto_po2 depthwise kernel with depth_multiplier 2: QTools asserts (the model must reject it too)
@@ -157,6 +192,38 @@ def gen_specs(rng, tier):
                     layers=[dict(w="auto_po2", b="fixed", act=None, act_mode=None, dm=2)]))
   specs.append(dict(stream="dw_auto_dm1", family="depthwise", pre="relu",
                     layers=[dict(w="auto_po2", b="fixed", act=None, act_mode=None, dm=1)]))
+  # auto_po2 kernels whose per-channel scales are ALL far from 1, with a bias wider than the scaled products:
+  # the bias is not scaled, so the fused accumulator must add it AFTER the shift (integer bits of the bias survive a
+  # small scale, fraction bits of the bias survive a large scale)
+  for fam in fams:
+    specs.append(dict(stream="autopo2_bias", family=fam, pre=[None, "relu", "bits"][int(rng.integers(0, 3))],
+                      layers=[dict(w="auto_po2_small", b="wide_int", act=None, act_mode=None, dm=1)]))
+    specs.append(dict(stream="autopo2_bias", family=fam, pre=[None, "relu", "bits"][int(rng.integers(0, 3))],
+                      layers=[dict(w="auto_po2_large", b="wide_frac", act=None, act_mode=None, dm=1)]))
+  # po2 kernels / activations with a non-power-of-two max_value; aimed: every weight at the top power of two,
+  # all-max inputs, term count a power of two and not — the reported multiplier / accumulator must hold the sum
+  for i, n_in in enumerate((1, 2, 3, 4)):
+    specs.append(dict(stream="po2_mv_top", family="dense", pre=None, n_in=n_in,
+                      layers=[dict(w="po2_mv", b=["none", "fixed"][i % 2], act=None, act_mode=None, units=2,
+                                   raw="allmax")]))
+  for fam in fams:
+    specs.append(dict(stream="po2_mv", family=fam, pre=[None, "relu", "bits"][int(rng.integers(0, 3))],
+                      layers=[dict(w="po2_mv", b=biases[int(rng.integers(0, 3))], act=None, act_mode=None)]))
+  for pre in ("po2_mv", "relu_po2_mv"):
+    for wk in ("fixed", "po2_mv"):
+      specs.append(dict(stream="po2_mv_act", family=fams[int(rng.integers(0, 4))], pre=pre,
+                        layers=[dict(w=wk, b=biases[int(rng.integers(0, 3))], act=None, act_mode=None)]))
+  # estimator regression (repaired loop bound): depthwise kernels with several input channels AND a depth
+  # multiplier > 1 and a per-channel bias — output channel c*dm + m must be paired with k[:, :, c, m] and b[c*dm + m]
+  for dm in (2, 3):
+    specs.append(dict(stream="est_dw", family="depthwise", pre=None, cin=int(rng.choice([2, 3])),
+                      layers=[dict(w="fixed", b="fixed", act=None, act_mode=None, dm=dm)]))
+  # aimed: 1x1 kernel, 2 input channels, depth multiplier 2, range (-1, 1).  Output channel 1 = (c=0, m=1) has weight
+  # 7/8 and bias 7/8 (bound 14/8, estimate 1); pairing the slices in the order m*cin + c instead of c*dm + m puts the
+  # bias 7/8 on the weight 1/8 (largest bound 1, estimate 0 < log2 of the real output 14/8)
+  specs.append(dict(stream="est_dw", family="depthwise", pre=None, cin=2, ksize=(1, 1), est_range=(-1.0, 1.0),
+                    layers=[dict(w="fixed40", b="fixed40", act=None, act_mode=None, dm=2,
+                                 set_w=([[[[0.125, 0.875], [0.125, 0.125]]]], [0.0, 0.875, 0.0, 0.0]))]))
   # (d) chains: layer.activation vs separate QActivation, Flatten between conv and dense
   n_chain = 8 if tier == "quick" else 120
   for _ in range(n_chain):
@@ -187,7 +254,7 @@ def lattice(bits, integer, signed):
   return lo, hi, step
 
 
-def raw_weights(rng, spec, shape, mode):
+def raw_weights(rng, spec, shape, mode, wkind=None):
   """raw (pre-quantization) kernel: lattice points incl. both saturation ends, as short dyadics"""
   name, kw = spec
   n_out = shape[-1]
@@ -203,7 +270,8 @@ def raw_weights(rng, spec, shape, mode):
       codes = np.where(ext < 0.15, lo, np.where(ext > 0.85, hi, codes))
     w = codes * step
     if kw.get("alpha", None) is None:       # auto_po2: spread the channels over several scales
-      sc = 2.0 ** rng.integers(-3, 3, size=n_out)
+      lo_e, hi_e = {"auto_po2_small": (-8, -5), "auto_po2_large": (3, 6)}.get(wkind, (-3, 3))
+      sc = 2.0 ** rng.integers(lo_e, hi_e, size=n_out)
       w = w * sc.reshape((1,) * (len(shape) - 1) + (n_out,))
     return w.astype(np.float32)
   if name in ("ternary", "binary"):
@@ -213,6 +281,8 @@ def raw_weights(rng, spec, shape, mode):
       w = w * sc.reshape((1,) * (len(shape) - 1) + (n_out,))
     return w.astype(np.float32)
   if name == "quantized_po2":
+    if mode == "allmax":                    # every weight saturates at the quantizer's top power of two
+      return np.full(shape, 64.0, dtype=np.float32)
     e = rng.integers(-5, 5, size=shape)
     s = rng.choice(np.array([-1.0, 1.0]), size=shape)
     w = s * 2.0 ** e
@@ -255,6 +325,8 @@ def build(rng, spec, idx):
                     keep_negative=bool(rng.random() < 0.8), alpha=None)
   kh, kw_ = int(rng.choice([1, 2, 3])), int(rng.choice([1, 2, 3]))
   cin = int(rng.choice([1, 2, 3]))
+  cin = spec.get("cin", cin)
+  kh, kw_ = spec.get("ksize", (kh, kw_))
   if fam == "dense":
     n_in = spec.get("n_in", int(rng.choice([1, 2, 3, 4, 5, 8, 9])))
     ishape = (n_in,)
@@ -311,7 +383,7 @@ def build(rng, spec, idx):
       cls = "QDepthwiseConv2D"
     x = lyr(x)
     it = dict(kind="layer", cls=cls, layer=lyr, wspec=wspec, bspec=bspec, aspec=aspec if attr_act is not None else None,
-              raw=ls.get("raw", "random"), wkind=ls["w"])
+              raw=ls.get("raw", "random"), wkind=ls["w"], set_w=ls.get("set_w"))
     b.items.append(it)
     b.nodes.append(None)      # filled after the weights are known (kernel shape, auto_po2 scales)
     if aspec is not None and attr_act is None:
@@ -323,9 +395,11 @@ def build(rng, spec, idx):
       continue
     lyr = it["layer"]
     ws = lyr.get_weights()
-    new = [raw_weights(rng, it["wspec"], ws[0].shape, it["raw"])]
+    new = [raw_weights(rng, it["wspec"], ws[0].shape, it["raw"], it["wkind"])]
     if it["bspec"] is not None:
       new.append(raw_bias(rng, it["bspec"], ws[1].shape[0]))
+    if it["set_w"] is not None:
+      new = [np.asarray(v, dtype=np.float32) for v in it["set_w"]][: len(ws)]
     lyr.set_weights(new)
     it["kshape"] = [int(v) for v in ws[0].shape]
   return b
@@ -459,7 +533,10 @@ def run(run: core.Run, tier: str):
   run.extra["rule"] = (
       "models: grid of (weight kind x preceding activation kind) single dense/conv1d/conv2d/depthwise layers "
       "with none/fixed/po2 bias, aimed most-negative cases with N=1..4 terms, default-alpha ternary/binary "
-      "kernels, tanh / po2(max_value=1) activations, Flatten after tanh, random 2-layer chains with "
+      "kernels, tanh / po2(max_value=1) activations, Flatten after tanh / ulaw / bernoulli / stochastic_binary, "
+      "auto_po2 kernels with all scales << 1 / >> 1 under a bias wider than the scaled products, po2 kernels / "
+      "activations with non-power-of-two max_value (1.5, 3, 5, 6; aimed: all weights at the top power of two), "
+      "depthwise estimator cases with depth multiplier > 1, random 2-layer chains with "
       "layer.activation or separate QActivation; inputs: all-max, all-min, sign-aligned and anti-aligned with "
       "each output channel's effective kernel, random lattice points; non-trivial = distinct (stream, family, "
       "weight/bias/activation quantizers, kernel shape); every tensor value is judged by Lean Val on the type "
@@ -569,6 +646,9 @@ def run(run: core.Run, tier: str):
 
     # ---- stream 2: values vs reported types (judged later in one driver call)
     for pos, (it, rep) in enumerate(zip(b.items, impl_reports)):
+      if spec.get("types_only"):
+        run.count("values_not_judged(types_only)")
+        break
       base = {"model": idx, "pos": pos, "stream": spec["stream"], "family": spec["family"]}
       judge(rep["input"], uniq(it["x"]), dict(base, site="layer_input", kindof=it["kind"], cls=it.get("cls"),
                                                prev=(b.items[pos - 1]["kind"] if pos else "source"),
@@ -619,7 +699,7 @@ def run(run: core.Run, tier: str):
         run.count("bias_%s" % ("none" if t["bias"] is None else "mode%d" % t["bias"]["mode"]))
 
     # ---- stream 3: the estimator, single q-layer models whose kernel re-quantizes idempotently
-    if len(layers) == 1 and layers[0]["scale"] is None and spec["stream"] in ("grid", "random", "mostneg"):
+    if len(layers) == 1 and layers[0]["scale"] is None and spec["stream"] in ("grid", "random", "mostneg", "est_dw"):
       it = layers[0]
       lyr = it["layer"]
       try:
@@ -639,14 +719,25 @@ def run(run: core.Run, tier: str):
       xmin, xmax = choices[int(rng.integers(0, len(choices)))]
       if xmin > xmax or xmin == xmax:
         xmin, xmax = -1.0, 1.0
+      if "est_range" in spec:
+        xmin, xmax = spec["est_range"]
       try:
         with np.errstate(all="ignore"), quiet():
           res = analyze_accumulator(model, {lyr.name: (xmin, xmax)})
         impl = {"ok": int(res[lyr.name])}
-      except (OverflowError, IndexError) as e:
+      except (OverflowError, IndexError, ValueError) as e:
         impl = {"err": type(e).__name__}
-      slices = [core.enc_list(k[..., i].ravel()) for i in range(k.shape[-1])]
-      est_lines.append({"op": "est", "shape1": int(k.shape[1]), "slices": slices, "bias": core.enc_list(bvec),
+      # one flattened kernel slice per OUTPUT channel, from the layer semantics (not from the implementation's
+      # indexing): dense / conv: k[..., o]; depthwise (kh, kw, cin, dm): output channel c*dm + m <- k[:, :, c, m]
+      if it["cls"] == "QDepthwiseConv2D":
+        cin_, dm_ = k.shape[-2], k.shape[-1]
+        chan = [k[:, :, c, m] for c in range(cin_) for m in range(dm_)]
+      else:
+        chan = [k[..., o] for o in range(k.shape[-1])]
+      if not lyr.use_bias:
+        bvec = np.zeros((len(chan),))
+      slices = [core.enc_list(c_.ravel()) for c_ in chan]
+      est_lines.append({"op": "est", "slices": slices, "bias": core.enc_list(bvec),
                         "xmin": core.rj(xmin), "xmax": core.rj(xmax)})
       # measured max |output| of the REAL layer on extremal inputs inside [xmin, xmax]
       ish = tuple(xin.shape[1:])
@@ -809,19 +900,15 @@ def run(run: core.Run, tier: str):
     if not agree:
       run.disagree("analyze_accumulator", {k_: meta[k_] for k_ in ("model", "cls", "shape", "xmin", "xmax", "wlabel")},
                    meta["impl"], mres)
-    shape1 = meta["shape"][1]
-    # the loop `for i in range(k.shape[1])` with k[..., i], b[i] walks the output channels only when axis 1 is as
-    # long as the last axis and the last axis IS the output-channel axis (never for depthwise kernels)
-    n_out = meta["shape"][-1] if meta["cls"] != "QDepthwiseConv2D" else -1
     rank = len(meta["shape"])
     if "err" in meta["impl"]:
       run.count("est_raises_" + meta["impl"]["err"])
-      # the estimator cannot size a valid layer
+      # the estimator cannot size a valid layer: only acceptable when every output channel is identically zero
+      # on the range (OverflowError on log2 0, Props.C18.C18_estimator_overflow_only_zero)
       nonzero = any(v > 0 for v in meta["per_chan"])
-      if meta["impl"]["err"] == "IndexError" or nonzero:
+      if meta["impl"]["err"] != "OverflowError" or nonzero:
         run.violate("estimator_bounds_output",
-                    {"site": "estimator", "exc": meta["impl"]["err"], "rank": rank,
-                     "loop_bound_is_cout": shape1 == n_out},
+                    {"site": "estimator", "exc": meta["impl"]["err"], "cls": meta["cls"], "rank": rank},
                     {"layer": meta["cls"], "kernel_shape": meta["shape"], "range": [meta["xmin"], meta["xmax"]],
                      "max_abs_output_per_channel": meta["per_chan"]}, mirrored=agree)
       continue
@@ -829,18 +916,11 @@ def run(run: core.Run, tier: str):
     bound = 2.0 ** est
     badc = [c for c, v in enumerate(meta["per_chan"]) if v > bound]
     run.count("est_ok")
+    run.count("est_ok_bias_nonzero" if meta["bias_nonzero"] else "est_ok_bias_zero")
     if badc:
-      causes = set()
-      for c in badc:
-        if c >= shape1:
-          causes.add("unvisited-channel")
-        elif meta["bias_nonzero"] and meta["xmax"] < 1:
-          causes.add("bias-scaled")
-        else:
-          causes.add("other")
       run.violate("estimator_bounds_output",
-                  {"site": "estimator", "exc": None, "rank": rank, "loop_bound_is_cout": shape1 == n_out,
-                   "causes": "+".join(sorted(causes))},
+                  {"site": "estimator", "exc": None, "cls": meta["cls"], "rank": rank,
+                   "bias_nonzero": meta["bias_nonzero"]},
                   {"layer": meta["cls"], "kernel_shape": meta["shape"], "range": [meta["xmin"], meta["xmax"]],
                    "estimate": est, "max_abs_output_per_channel": meta["per_chan"], "channels_over": badc},
                   mirrored=agree)
@@ -849,7 +929,7 @@ def run(run: core.Run, tier: str):
   lines, meta = [], []
   xs = np.array([0.0, 1e-30, 1e-9, 2.0 ** -20, 1e-3, 0.3, 1.0, 3.0, 100.0, 2.0 ** 20, -1e-30, -0.3, -2.0 ** 20], np.float32)
   for bits in (2, 3, 4, 5):
-    for mv in (None, 0.25, 0.5, 1, 2, 4, 8):
+    for mv in (None, 0.25, 0.5, 1, 2, 4, 8, 1.5, 3, 5, 6):
       for relu in (False, True):
         q = (Q.quantized_relu_po2 if relu else Q.quantized_po2)(bits, mv)
         y = q(tf.constant(xs)).numpy().astype(np.float64)
